@@ -7,34 +7,56 @@ package jsonexpr
 //@ scope eval.go
 
 // Extract reads the decoder and reports matches through the callback; it writes nothing else of
-// the caller's state (frame assumed). Whatever the walk over the document reports - a decoding
+// the caller's state. Whatever the walk over the document reports - a decoding
 // error anywhere in the line included - is what Extract returns: a malformed line is never
 // silently accepted.
 //@ func Extract
-//@   trusted_frame
 //@   calls extract
 //@   modifies nothing
 //@   capture w = call(e.walk, 0)
 //@   ensures[walk-result-is-returned] w_called && w_a0 == d && ret0 == w_r0
 
 // Objects and arrays are decoded to their end: the per-member callback stops the decoder only
-// with the error of the nested walk.
+// with the error of the nested walk. The path stack is balanced: a walk that succeeds leaves it as
+// long as it found it (which is what makes the pop `e.current[:len(e.current)-1]` safe).
+// The extract callback sits in a field; its effect is accounted for where Extract is called.
 //@ func (*extractor).walkObj
+//@   calls e.extract
 //@   capture tm = call(e.tryMatchRaw, 0)
 //@   capture ob = call(d.Obj, 0)
+//@   modifies e.current, e.current[*]
 //@   ensures[raw-match-error-surfaces] tm_called && (tm_r0 != nil ==> ret0 == tm_r0)
 //@   ensures[decoder-result-is-returned] tm_r0 == nil ==> ob_called && ret0 == ob_r0
+//@   ensures[path-restored-on-success] ret0 == nil ==> len(e.current) == old(len(e.current))
 //@ func (*extractor).walkObj$1
+//@   calls e.extract
+//@   callback_stable len(e.current)
 //@   capture w = call(e.walk, 0)
+//@   modifies e.current, e.current[*]
 //@   ensures[stops-only-on-a-nested-error] w_called && w_a0 == d && ret0 == w_r0
 //@ func (*extractor).walkArr
+//@   calls e.extract
 //@   capture tm = call(e.tryMatchRaw, 0)
 //@   capture ar = call(d.Arr, 0)
+//@   modifies e.current, e.current[*]
 //@   ensures[raw-match-error-surfaces] tm_called && (tm_r0 != nil ==> ret0 == tm_r0)
 //@   ensures[decoder-result-is-returned] tm_r0 == nil ==> ar_called && ret0 == ar_r0
+//@   ensures[path-restored-on-success] ret0 == nil ==> len(e.current) == old(len(e.current))
 //@ func (*extractor).walkArr$1
+//@   calls e.extract
+//@   callback_stable len(e.current)
 //@   capture w = call(e.walk, 0)
+//@   modifies e.current, e.current[*], n
 //@   ensures[stops-only-on-a-nested-error] w_called && w_a0 == d && ret0 == w_r0
+
+//@ func (Path).Equal
+//@   modifies nothing
+//@ func (*extractor).tryMatchRaw
+//@   calls e.extract
+//@   modifies nothing
+//@   loop 0 modifies raw
+//@ func (*extractor).tryMatchRaw$1
+//@   modifies raw
 
 //@ scope jsonexpr.go
 
@@ -90,9 +112,13 @@ package jsonexpr
 // A matched scalar is reported with the text the document gives it: strings decoded, numbers
 // verbatim (no re-formatting), booleans as true / false, null as the empty string.
 //@ func (*extractor).matchLiteral
-//@   trusted
-//@   modifies *
+//@   calls e.extract
+//@   modifies nothing
+//@   loop 0 modifies nothing
 //@ func (*extractor).walk
+//@   calls e.extract
+//@   modifies e.current, e.current[*]
+//@   ensures[path-restored-on-success] ret0 == nil ==> len(e.current) == old(len(e.current))
 //@   capture str = call(d.Str, 0)
 //@   capture num = call(d.Num, 0)
 //@   capture bl = call(d.Bool, 0)
